@@ -77,7 +77,7 @@ def text_only_for_ascii_formats():
         sym.check("text_header", s[:8] == "HUGRiHJv" and s[8] == "?")
 
 
-@lemma("C09", bounds="packages of 0..2 modules drawn from 7 builder templates (calls, nested regions, CFG, constants, tracked circuit, non-ASCII "
+@lemma("C09", bounds="packages of 0..2 modules drawn from 8 builder templates (calls, nested regions, CFG, constants, tracked circuit, non-ASCII "
                      "names/metadata) and 0..2 extensions; compression None or a symbolic level in {-5,0,1,3,22} (quick) / -5..22 (thorough), realised at the zstd boundary; second module fixed in quick; "
                      "bytes and text encodings", outside="MODULE / MODULE_WITH_EXTS payloads (need the native hugr._hugr, absent offline)",
        opts={"max_paths": 100000, "timeout_s": 1500})
